@@ -419,10 +419,16 @@ def check_hash_plugins(ctx: Ctx, rep: Report) -> None:
         env = ctx.r.env(mod)
         got = env.get("authenticate_incoming_message")
         site = f"{mod.path} (authenticate_incoming_message)"
+        if got is not None and not (got.kind == "value" and isinstance(got.target, ast.Call)):
+            # a plug-in that re-exports the callable of another plug-in module (an alias name for the same algorithm)
+            origin = ctx.r.resolve_name(mod, "authenticate_incoming_message")
+            if origin is not None and origin.kind == "value" and origin.module is not None and origin.module is not mod and origin.module in mods and isinstance(origin.target, ast.Call):
+                rep.ok("C09-R3", site, "plug-in's incoming check is built by a known factory", f"the very callable of {origin.module.name} (checked there)")
+                continue
         if got is None or got.kind != "value" or not isinstance(got.target, ast.Call):
             rep.undecided("C09-R3", site, "plug-in's incoming check is built by a known factory", "binding not recognised")
             continue
-        makers = [c for c in ctx.r.callees(_pseudo_fn(ctx, mod), got.target) if isinstance(c, FuncInfo)]
+        makers = [c for c in ctx.r.callees(_pseudo_fn(ctx, got.module or mod), got.target) if isinstance(c, FuncInfo)]  # resolved where the binding was written (a plug-in may re-export another one's callable)
         if len(makers) != 1:
             rep.undecided("C09-R3", site, "plug-in's incoming check is built by a known factory", f"{makers}")
             continue
